@@ -424,6 +424,8 @@ def gate_hint(ctx):
                   "SymbolList::upper_limit_for_number_of_codewords returns Some for every non-empty list on every branch (it is only a reservation hint; its None is mapped to SymbolListEmpty)",
                   site=T.span_str(f.thir[fn]["span"]), detail=T.sx_show(e, 400)))
     # the wrapper maps None to SymbolListEmpty and its only use is Vec::reserve
+    if not [n for n in f.thir if T.canon(n).endswith("GenericDataEncoder::upper_limit_for_number_of_codewords")]:
+        return obs + _gate_hint_inline(f, r, fn)
     w = _fn(f, "GenericDataEncoder::upper_limit_for_number_of_codewords", r)
     we = T.sx(f.thir[w]["body"], {})
     ok = we[0] == "call" and we[1].endswith("Option::ok_or") and we[2][0][0] == "call" and we[2][0][1] == fn and we[2][1][0] == "adt" and we[2][1][2] == "SymbolListEmpty"
@@ -438,6 +440,33 @@ def gate_hint(ctx):
     res = [x for s in sts for ex in T.stmt_exprs(s) for x in T.sx_calls(ex, "Vec::reserve")]
     ok = users == [T.canon(cw)] and len(res) == 1 and any(T.canon(x[1]) == T.canon(w) for x in T.sx_walk(res[0][2][1]) if x[0] == "call")
     obs.append(Ob(r, "only-a-hint", ok, "the value is used only as the argument of Vec::reserve in codewords()", detail=users))
+    return obs
+
+
+def _is_hint_mapping(x, fn):
+    """`<SymbolList>::upper_limit_for_number_of_codewords(..).ok_or(SymbolListEmpty)`, possibly under `?`"""
+    if isinstance(x, tuple) and x and x[0] == "try":
+        x = x[1]
+    return isinstance(x, tuple) and x and x[0] == "call" and x[1].endswith("Option::ok_or") and x[2][0][0] == "call" and x[2][0][1] == fn \
+        and x[2][1][0] == "adt" and x[2][1][2] == "SymbolListEmpty"
+
+
+def _gate_hint_inline(f, r, fn):
+    """no wrapper method: codewords() itself maps the missing hint and hands the value to Vec::reserve"""
+    obs = []
+    cw = _fn(f, "GenericDataEncoder::codewords", r)
+    sts = T.stmts(f.thir[cw]["body"], {"__noinline__": True})
+    users = sorted({T.canon(name) for name, b in f.thir.items() for c in T.calls(b["body"]) if T.canon(T.callee_of(c)) == fn})
+    maps = [st for st in T.stmt_walk(sts) if st[0] == "let" and _is_hint_mapping(st[3], fn)]
+    direct = [x for st in T.stmt_walk(sts) for ex in T.stmt_exprs(st) for x in T.sx_calls(ex, "Vec::reserve") if _is_hint_mapping(x[2][1], fn)]
+    obs.append(Ob(r, "wrapper", len(maps) + len(direct) == 1 and users == [T.canon(cw)], "codewords() maps the missing hint with upper_limit(..).ok_or(SymbolListEmpty) (no wrapper method)", detail=users))
+    ok = bool(direct)
+    if maps and not direct:
+        v = maps[0][1]
+        uses = [x for st in T.stmt_walk(sts) for ex in T.stmt_exprs(st) for x in T.sx_walk(ex) if isinstance(x, tuple) and len(x) > 2 and x[0] == "var" and x[2] == v]
+        res = [x for st in T.stmt_walk(sts) for ex in T.stmt_exprs(st) for x in T.sx_calls(ex, "Vec::reserve") if len(x[2]) == 2 and x[2][1][0] == "var" and len(x[2][1]) > 2 and x[2][1][2] == v]
+        ok = len(uses) == 1 and len(res) == 1
+    obs.append(Ob(r, "only-a-hint", ok, "the value is used only as the argument of Vec::reserve in codewords()"))
     return obs
 
 
@@ -456,11 +485,27 @@ def dom_errcls(ctx):
             if v == "SymbolListEmpty":
                 sites.append((T.canon(name), body, b, st))
     cwn = T.canon(_fn(f, "GenericDataEncoder::codewords", r))
-    wn = T.canon(_fn(f, "GenericDataEncoder::upper_limit_for_number_of_codewords", r))
+    whits = [n for n in f.thir if T.canon(n).endswith("GenericDataEncoder::upper_limit_for_number_of_codewords")]
+    wn = T.canon(whits[0]) if len(whits) == 1 else None
+    # without the wrapper method, codewords() itself holds the `.ok_or(SymbolListEmpty)` of the reservation hint
+    n_hint = 0
+    if wn is None:
+        cw_sts = T.stmts(f.thir[_fn(f, "GenericDataEncoder::codewords", r)]["body"], {"__noinline__": True})
+        n_hint = sum(1 for st0 in T.stmt_walk(cw_sts) for ex in T.stmt_exprs(st0) for x in T.sx_walk(ex) if _is_hint_mapping(x, SL + "::upper_limit_for_number_of_codewords"))
     k = 0
     for name, body, b, st in sites:
         k += 1
         site = M.fmt_span(st["span"])
+        if name == cwn and n_hint:
+            gs0 = []
+            for cb, t in body.calls(lambda c, _t: T.canon(c) == SL + "::is_empty"):
+                e0 = body.bool_edges_of_call(cb)
+                if e0:
+                    gs0.append(e0)
+            if not any(body.dominated_by_edge(b, g0[0]) for g0 in gs0):
+                n_hint -= 1
+                obs.append(Ob(r, "site:%d" % k, True, "codewords() maps a missing reservation hint to SymbolListEmpty (sound iff GATE-HINT holds)", site=site))
+                continue
         if name == cwn:
             gs = []
             for cb, t in body.calls(lambda c, _t: T.canon(c) == SL + "::is_empty"):
